@@ -11,7 +11,8 @@ GEN = ["Mods", "B64"]
 RULE = ("values = strings up to length 4 over {a, b, -, /, *, ?, \\\\, %, ä, €, space, _, 1} (exhaustive for length <= 2, "
         "sampled beyond), ints, floats, bools, null, single and lists; chains = every chain of length <= 2 over the full "
         "modifier table x a value sample, chains of length 3..4 sampled (admissible and inadmissible); distinct = distinct "
-        "(key, value); non-trivial = chain length >= 2 or a value with a special character")
+        "(key, value); non-trivial = chain length >= 2 or a value with a special character"
+        "; plus every string modifier next to `expand` in both orders on placeholder values")
 ASSUMPTIONS = [
     "Python re decides validity of regular expressions and the word-character class \\w (passed to the specification per case)",
     "Python ipaddress decides validity of CIDR text",
